@@ -381,4 +381,35 @@ pub mod spec_tsig {
             assert(false);
         }
     }
+
+    /// Tampering with the TSIG RR: a different original ID changes the digest message ...
+    pub proof fn lemma_tamper_original_id(m: Seq<u8>, id1: u16, id2: u16)
+        requires message_ok(m), id1 != id2,
+        ensures digest_message(m, id1) != digest_message(m, id2),
+    {
+        lemma_u16_be(id1 as int); lemma_u16_be(id2 as int);
+        let d1 = digest_message(m, id1);
+        let d2 = digest_message(m, id2);
+        if d1 == d2 {
+            assert(d1[0] == d2[0] && d1[1] == d2[1]);
+            assert(false);
+        }
+    }
+
+    /// ... and different TSIG variables (key name, algorithm, time signed, fudge,
+    /// error, other data - anything that changes their 4.3.3 encoding) change the
+    /// digest input of the same message.
+    pub proof fn lemma_tamper_variables(m: Seq<u8>, original_id: u16, v1: TsigVars, v2: TsigVars)
+        requires tsig_variables(v1) != tsig_variables(v2),
+        ensures request_input(m, original_id, v1) != request_input(m, original_id, v2),
+    {
+        let d = digest_message(m, original_id);
+        let r1 = request_input(m, original_id, v1);
+        let r2 = request_input(m, original_id, v2);
+        if r1 == r2 {
+            assert(r1.subrange(d.len() as int, r1.len() as int) =~= tsig_variables(v1));
+            assert(r2.subrange(d.len() as int, r2.len() as int) =~= tsig_variables(v2));
+            assert(false);
+        }
+    }
 }
